@@ -162,9 +162,9 @@ Lemma step_call_section c e b k sec fc now a : good_cfg c -> bound b e -> sectio
   HOk (mkS b Transmit k 0 (len sec) 0 fc now) [CSectionSize (k - 1) (len sec)] Handled.
 Proof.
   intros (Hm & Ht & Hf) (B1 & B2 & B3 & B4) Hsec Hne Hmsg. msg_open Hmsg. hstart.
-  rewrite (to_mkS c _ _ _ _ _ _ _ now Ht). cbn [mkS st fstate_eqb negb andb].
+  rewrite to_mkS by assumption. cbn [mkS st fstate_eqb negb andb].
   unfold h_call. rewrite Hcot. cbn [Z.eqb Pos.eqb]. cbn [length Z.of_nat Pos.of_succ_nat Pos.succ] in Hdec. rewrite Hdec.
-  cbn [fld nth Z.eqb Pos.eqb st fstate_eqb s_ioa s_ca]. rewrite Hca, B1, B2, !Z.eqb_refl. cbn [negb orb]. rewrite Hpn.
+  cbn [mkS fld nth Z.eqb Pos.eqb st fstate_eqb s_ioa s_ca]. rewrite Hca, B1, B2, !Z.eqb_refl. cbn [negb orb]. rewrite Hpn.
   rewrite (section_size_in e k sec Hsec).
   replace (0 <? len sec) with true by (symmetry; apply Z.ltb_lt; unfold len; destruct sec; [congruence|cbn; lia]).
   reflexivity.
@@ -175,9 +175,9 @@ Lemma step_nack_section c e b k L sc fc now a : good_cfg c -> bound b e -> is_ac
   HOk (mkS b Transmit k 0 L 0 fc now) [OSend 0 (get_oa (f_alp c) a) (s_ca b) (s_ioa b) (s_nof b) (TSectionReady k L)] Handled.
 Proof.
   intros (Hm & Ht & Hf) (B1 & B2 & B3 & B4) Hmsg. msg_open3 Hmsg. hstart.
-  rewrite (to_mkS c _ _ _ _ _ _ _ now Ht). cbn [mkS st fstate_eqb negb andb].
+  rewrite to_mkS by assumption. cbn [mkS st fstate_eqb negb andb].
   unfold h_ack. cbn [st fstate_eqb negb]. cbn [length Z.of_nat Pos.of_succ_nat Pos.succ] in Hdec. rewrite Hdec.
-  cbn [fld nth]. reflexivity.
+  cbn [mkS fld nth]. reflexivity.
 Qed.
 
 Lemma step_ack_section_next c e b k L sc fc now a nxt : good_cfg c -> bound b e -> is_ack c e a 3 ->
@@ -187,9 +187,9 @@ Lemma step_ack_section_next c e b k L sc fc now a nxt : good_cfg c -> bound b e 
       [CSectionSize k (len nxt); OSend 0 (get_oa (f_alp c) a) (s_ca b) (s_ioa b) (s_nof b) (TSectionReady (k + 1) (len nxt))] Handled.
 Proof.
   intros (Hm & Ht & Hf) (B1 & B2 & B3 & B4) Hmsg Hsec Hne Hk. msg_open3 Hmsg. hstart.
-  rewrite (to_mkS c _ _ _ _ _ _ _ now Ht). cbn [mkS st fstate_eqb negb andb].
+  rewrite to_mkS by assumption. cbn [mkS st fstate_eqb negb andb].
   unfold h_ack. cbn [st fstate_eqb negb]. cbn [length Z.of_nat Pos.of_succ_nat Pos.succ] in Hdec. rewrite Hdec.
-  cbn [fld nth nos fchs schs]. rewrite Hf.
+  cbn [mkS fld nth nos fchs schs]. rewrite Hf.
   assert (E : u8 (k + 1) = k + 1) by (unfold u8; apply Z.mod_small; lia). rewrite E.
   replace (k + 1 - 1) with k by lia.
   pose proof (section_size_in e (k + 1) nxt Hsec) as Hs. replace (k + 1 - 1) with k in Hs by lia. rewrite Hs.
@@ -204,9 +204,9 @@ Lemma step_ack_section_last c e b k L sc fc now a : good_cfg c -> bound b e -> i
       [CSectionSize k 0; OSend 0 (get_oa (f_alp c) a) (s_ca b) (s_ioa b) (s_nof b) (TLastSection (k + 1) (u8 (fc + sc)))] Handled.
 Proof.
   intros (Hm & Ht & Hf) (B1 & B2 & B3 & B4) Hmsg Hk Hr. msg_open3 Hmsg. hstart.
-  rewrite (to_mkS c _ _ _ _ _ _ _ now Ht). cbn [mkS st fstate_eqb negb andb].
+  rewrite to_mkS by assumption. cbn [mkS st fstate_eqb negb andb].
   unfold h_ack. cbn [st fstate_eqb negb]. cbn [length Z.of_nat Pos.of_succ_nat Pos.succ] in Hdec. rewrite Hdec.
-  cbn [fld nth nos fchs schs]. rewrite Hf.
+  cbn [mkS fld nth nos fchs schs]. rewrite Hf.
   assert (E : u8 (k + 1) = k + 1) by (unfold u8; apply Z.mod_small; lia). rewrite E.
   pose proof (section_size_out e (k + 1) ltac:(lia)) as Hs. rewrite Hs. cbn [Z.leb Z.compare].
   replace (k + 1 - 1) with k by lia. reflexivity.
@@ -217,9 +217,9 @@ Lemma step_ack_file c e b k o L sc fc now a : good_cfg c -> bound b e -> is_ack 
   HOk (set_st (set_sel (mkS b WaitFileAck k o L sc fc now) false (-1)) Idle) [CComplete true] Handled.
 Proof.
   intros (Hm & Ht & Hf) (B1 & B2 & B3 & B4) Hmsg. msg_open3 Hmsg. hstart.
-  rewrite (to_mkS c _ _ _ _ _ _ _ now Ht). cbn [mkS st fstate_eqb negb andb].
+  rewrite to_mkS by assumption. cbn [mkS st fstate_eqb negb andb].
   unfold h_ack. cbn [st fstate_eqb negb]. cbn [length Z.of_nat Pos.of_succ_nat Pos.succ] in Hdec. rewrite Hdec.
-  cbn [fld nth Z.eqb Pos.eqb st fstate_eqb sel]. rewrite B3. reflexivity.
+  cbn [mkS fld nth Z.eqb Pos.eqb st fstate_eqb sel]. rewrite B3. reflexivity.
 Qed.
 
 (* select + call file from the idle state *)
@@ -236,7 +236,7 @@ Proof.
   intros (Hm & Ht & Hf) (E1 & E2 & E3) Hs Hmsg. msg_open3 Hmsg. hstart.
   rewrite Hs. cbn [fstate_eqb negb andb].
   unfold h_call. rewrite Hcot. cbn [Z.eqb Pos.eqb]. cbn [length Z.of_nat Pos.of_succ_nat Pos.succ] in Hdec. rewrite Hdec.
-  cbn [fld nth Z.eqb Pos.eqb le16]. rewrite Hs. cbn [fstate_eqb]. rewrite Hca.
+  cbn [mkS fld nth Z.eqb Pos.eqb le16]. rewrite Hs. cbn [fstate_eqb]. rewrite Hca.
   unfold nof_ok in Hnof. rewrite Hnof.
   unfold get_file. rewrite E1, !Z.eqb_refl. cbn [negb Z.eqb].
   destruct s. cbn in Hs. subst. reflexivity.
@@ -249,8 +249,8 @@ Lemma step_call_file c e s now a fst_sec : good_cfg c -> good_env e -> is_call_f
       [CSectionSize 0 (len fst_sec); OSend 0 (get_oa (f_alp c) a) (e_ca e) (e_ioa e) (e_nof e) (TSectionReady 1 (len fst_sec))] Handled.
 Proof.
   intros (Hm & Ht & Hf) (E1 & E2 & E3) Hmsg Hsec b. msg_open3 Hmsg. hstart.
-  rewrite (to_mkS c _ _ _ _ _ _ _ now Ht). cbn [mkS st fstate_eqb negb andb].
+  rewrite to_mkS by assumption. cbn [mkS st fstate_eqb negb andb].
   unfold h_call. rewrite Hcot. cbn [Z.eqb Pos.eqb]. cbn [length Z.of_nat Pos.of_succ_nat Pos.succ] in Hdec. rewrite Hdec.
-  cbn [fld nth Z.eqb Pos.eqb st fstate_eqb s_ioa s_ca b selected]. rewrite Hca, !Z.eqb_refl. cbn [negb orb].
+  cbn [mkS fld nth Z.eqb Pos.eqb st fstate_eqb s_ioa s_ca b selected]. rewrite Hca, !Z.eqb_refl. cbn [negb orb].
   rewrite Hf. pose proof (section_size_in e 1 fst_sec Hsec) as Hs. cbn in Hs. rewrite Hs. reflexivity.
 Qed.
